@@ -33,6 +33,7 @@ func (e *Engine) verifyFunction(fn *ssa.Function, ct *Contract, sweepOnly bool) 
 	vc := newVC(e, key)
 	x := &Exec{eng: e, vc: vc, top: fn, contract: ct, heapSorts: map[string]Sort{}, written: map[string]bool{},
 		nilSeen: map[string]*ssa.BasicBlock{}, arith: "math", usedModels: map[string]bool{}}
+	x.assumeNil = sweepOnly && ct == nil
 	if ct != nil {
 		if v := ct.Opts["arith"]; v != "" {
 			x.arith = v
